@@ -12,7 +12,7 @@ from typing import Dict, List, Optional
 
 import z3
 
-from .interp import Interp, PyRaise, Infeasible, Obligation, zbool, simp
+from .interp import Interp, PyRaise, Infeasible, Obligation, zbool, simp, CutReached
 from .values import Unsupported, SObj, SStr, SSet
 from .contract import ContractInfo, SymFactory, ConcreteFactory, Registry
 from .source import ClassInfo
@@ -78,10 +78,48 @@ def snapshot(v, memo=None):
     return v
 
 
+def _reach(v, acc: set, depth):
+    if depth > 6 or id(v) in acc:
+        return
+    if isinstance(v, SObj):
+        acc.add(id(v))
+        for x in v.fields.values():
+            _reach(x, acc, depth + 1)
+    elif isinstance(v, (list, dict, set, tuple)):
+        if not isinstance(v, tuple):
+            acc.add(id(v))
+        for x in (v.values() if isinstance(v, dict) else v):
+            _reach(x, acc, depth + 1)
+
+
+def private_of(ci):
+    """names of the parameters whose private state may change (`modifies` entries of the form 'name.**')"""
+    mods = getattr(ci.pycls, 'modifies', ())
+    return tuple(m[:-3] for m in (mods if not callable(mods) else ()) if m.endswith('.**'))
+
+
+def _visible(ci, vals):
+    hide = private_of(ci)
+    return {k: v for k, v in vals.items() if k not in hide}
+
+
 def resolve_paths(vals: dict, paths) -> set:
     """ids of the objects a `modifies` tuple allows to be written (with the attribute, or None for containers)."""
     allowed = set()
     for p in paths or ():
+        if p.endswith('.**'):
+            # the private state of a worker object (an Exporter, a tokenizer: created per call by their callers): the object and the
+            # containers / objects reachable from it only.  A cache kept there is not a change of anything a property speaks about.
+            base = vals.get(p[:-3])
+            shared = set()
+            for k, v in vals.items():
+                if k != p[:-3]:
+                    _reach(v, shared, 0)
+            own = set()
+            _reach(base, own, 0)
+            for i in own - shared:
+                allowed.add((i, None))
+            continue
         parts = p.split('.')
         obj = vals.get(parts[0])
         attr = None
@@ -117,9 +155,20 @@ def run_one(I: Interp, reg: Registry, ci: ContractInfo, f, known_excludes=()):
     call_kwargs = {k: v for k, v in vals.items() if not k.startswith('_')}
     I.writes = []
     outcome, result, exc = 'normal', None, None
+    cut = getattr(ci.pycls, 'cut', None)
+    if cut:
+        I.cut_text, I.havoc_loops = cut, True
     try:
         if ci.kind == 'function':
-            result = I.call_function(f, [], call_kwargs)
+            try:
+                result = I.call_function(f, [], call_kwargs)
+            except CutReached as c:
+                # the contract is stated at a cut point (a loop head) instead of at the exit: its cut_* clauses see the locals
+                values = dict(vals)
+                values.update(c.env.vars)
+                for name in [n for n in vars(ci.pycls) if n.startswith('cut_')]:
+                    I.oblige('post', name[4:], I.truth(reg.call_clause(I, ci, name, values)))
+                return 'cut'
         elif ci.kind == 'const':
             mod, expr = I.index.const_expr(ci.const)
             result = I.static_value(('const', mod, expr))
@@ -130,6 +179,8 @@ def run_one(I: Interp, reg: Registry, ci: ContractInfo, f, known_excludes=()):
     values['old'] = old
     table = reg.call_clause(I, ci, 'raises', vals) if ci.has('raises') else {}
     I.cur_func, I.cur_line = (f.qualname if f is not None else ci.name), None
+    if cut:
+        return outcome          # a cut-point contract says nothing about the exits of the function
     if outcome == 'normal':
         for exc_name, cond in table.items():
             I.oblige('exc', f'no-{exc_name}', simp(z3.Not(zbool(I.truth(cond)))), note='normal return although the contract demands this exception')
@@ -440,7 +491,7 @@ def _replay(ci: ContractInfo, ob_kind: str, ob_label: str, model: dict):
             info.update(confirmed=None, reason='model violates requires')
             return info
         info['arguments'] = {k: _show(v) for k, v in vals.items()}
-        before = deep_state({'args': vals, 'globals': global_state()})
+        before = deep_state({'args': _visible(ci, vals), 'globals': global_state()})
         old = copy.deepcopy(vals)
         exc = None
         result = None
@@ -475,7 +526,7 @@ def _replay(ci: ContractInfo, ob_kind: str, ob_label: str, model: dict):
             want = base[3:]
             info.update(confirmed=(exc is not None and type(exc).__name__ == want), clause=f'no uncaught {want}')
         elif ob_kind == 'frame':
-            after = deep_state({'args': vals, 'globals': global_state()})
+            after = deep_state({'args': _visible(ci, vals), 'globals': global_state()})
             info.update(confirmed=(before != after), clause='modifies')
             if before != after:
                 info['state_before'] = _trunc(before)
@@ -510,7 +561,7 @@ def native_check(ci: ContractInfo, g: ConcreteFactory):
         return None
     if ci.has('requires') and not _call_native(ci, 'requires', vals):
         return None
-    before = deep_state({'args': vals, 'globals': global_state()})
+    before = deep_state({'args': _visible(ci, vals), 'globals': global_state()})
     old = copy.deepcopy(vals)
     exc, result = None, None
     try:
@@ -545,8 +596,8 @@ def native_check(ci: ContractInfo, g: ConcreteFactory):
         else:
             failed.append(f'safe:no-{en}')
     if ci.kind == 'function':
-        allowed = getattr(ci.pycls, 'modifies', ())
-        if not allowed and not ci.has('modifies_objs') and deep_state({'args': vals, 'globals': global_state()}) != before:
+        allowed = [m for m in getattr(ci.pycls, 'modifies', ()) if not m.endswith('.**')]
+        if not allowed and not ci.has('modifies_objs') and deep_state({'args': _visible(ci, vals), 'globals': global_state()}) != before:
             failed.append('frame:*')
     return failed
 
@@ -609,6 +660,11 @@ def bounded_standin(ci: ContractInfo, n: int, rng):
     """Bounded stand-in for a function the deductive engine cannot handle: n random inputs from the contract's own input
     builder, all clauses evaluated natively.  Returns (cases_run, first failing record or None)."""
     ran = 0
+    if getattr(ci.pycls, 'cut', None):
+        # locals at a cut point cannot be observed natively: the stand-in is the document-level contract named in witness_via
+        from .contract import REGISTRY
+        via = REGISTRY.get(getattr(ci.pycls, 'witness_via', '') or '')
+        return bounded_standin(via, n, rng) if via is not None else (0, None)
     for _ in range(n):
         g = ConcreteFactory({}, rng=rng, bound=6)
         try:
